@@ -74,3 +74,38 @@ func VerifC17_NewRSReplicasLimit() {
 	}
 	verifrt.Assert(int(NewRSReplicasLimit(part, d)) == want, "C17.limit.partitionResolvesToPods")
 }
+
+// VerifC17_NewReplicaSetIsStampedWithSizeAndSurge: a ReplicaSet about to be created is stamped desired-replicas = the
+// Deployment's size and max-replicas = size + surge, in that order.  isScalingEvent compares desired-replicas with
+// spec.replicas on every sync: a fresh ReplicaSet stamped with anything else turns the next sync of an un-scaled
+// Deployment into a "scaling event", handled by scale() — which takes the surge away from the largest (old) ReplicaSet
+// without regard to partition or availability.  An existing ReplicaSet keeps its stamps (scaleReplicaSet owns them).
+func VerifC17_NewReplicaSetIsStampedWithSizeAndSurge() {
+	maxR := verifrt.Bound("R", 1000, 1000000)
+	R := int32(verifrt.IntRange("R", 0, maxR))
+	d := &apps.Deployment{ObjectMeta: metav1.ObjectMeta{Namespace: "ns", Name: "w"}}
+	d.Spec.Replicas = &R
+	if verifrt.Bool("deployment.hasAnnotations") {
+		d.Annotations = map[string]string{"team": "a", ReplicasAnnotation: "77", MaxReplicasAnnotation: "78"}
+	}
+	ms, _, _ := c17Val("maxSurge", maxR)
+	mu := intstr.FromInt(1)
+	strategy := &rolloutsv1alpha1.DeploymentStrategy{RollingStyle: rolloutsv1alpha1.PartitionRollingStyle,
+		RollingUpdate: &apps.RollingUpdateDeployment{MaxSurge: &ms, MaxUnavailable: &mu}}
+	rs := &apps.ReplicaSet{ObjectMeta: metav1.ObjectMeta{Namespace: "ns", Name: "rs-new"}}
+	exists := verifrt.Bool("rs.exists")
+	if exists {
+		rs.Annotations = map[string]string{RevisionAnnotation: "1", ReplicasAnnotation: "5", MaxReplicasAnnotation: "6"}
+	}
+	SetNewReplicaSetAnnotations(d, rs, strategy, "2", exists, 2048)
+	surge := MaxSurge(d, strategy)
+	if exists {
+		verifrt.Cover("existing")
+		verifrt.Assert(rs.Annotations[ReplicasAnnotation] == "5" && rs.Annotations[MaxReplicasAnnotation] == "6", "C17.stamp.existingReplicaSetKeepsItsStamps")
+	} else {
+		verifrt.Cover("new")
+		verifrt.Assert(rs.Annotations[ReplicasAnnotation] == fmt.Sprintf("%d", R), "C17.stamp.desiredReplicasIsTheDeploymentSize")
+		verifrt.Assert(rs.Annotations[MaxReplicasAnnotation] == fmt.Sprintf("%d", R+surge), "C17.stamp.maxReplicasIsSizePlusSurge")
+	}
+	verifrt.Assert(rs.Annotations[RevisionAnnotation] == "2", "C17.stamp.revisionRecorded")
+}
